@@ -57,9 +57,10 @@ CLAIMED["C20"] = dict(
          "PaddedLenLaw, WireSizeDependsOnBlocksOnly and NearMissRefused for every name length up to the bound, and validates "
          "recorded pad/unpad calls for every length 0..130 (+ every multiple of 32 +-1 to 4096; thorough: 0..4100) and recorded "
          "issuer histories in which look-alike origins are registered and real client requests are evaluated: logged request "
-         "size = WireSize(Blocks(len)), served iff registered.",
+         "size = WireSize(Blocks(len)), served iff registered."
+         + " Verdicts.tla (a long-lived verifier with a memo in front of its check; VerdictIsFunction holds for the intended design - TLAPS: for histories of any length - and fails for three named deviations) generates EVERY history of 3 (thorough 4) presentations over the kind's classes (rlorigins: the registered names and their look-alikes); each is replayed on one rate-limited issuer with two registered origins, and TLC validates every recorded verdict against the specification's decision.",
     note="Name bytes are seeded per length. The request size formula is the type-3 grammar's; the HPKE/AEAD overheads (32+16) are constants of the fixed suite.",
-    technique="TLA+ padding/state-machine spec + TLC exhaustive laws over lengths + TLC trace validation of recorded issuer histories",
+    technique="TLA+ padding/state-machine spec + TLC exhaustive laws over lengths + TLC trace validation of recorded issuer histories + TLC-generated histories of presentations (Verdicts.tla) replayed on a long-lived object",
     ref="5/C20")
 
 CLAIMED["C09"] = dict(
@@ -128,7 +129,7 @@ CLAIMED["C07"] = dict(
          "change of it, on look-alike unregistered origins, foreign issuer, foreign signer, foreign contents, missing signature, "
          "trailing data, foreign request key, non-parsing inner plaintext and an AAD without the request key (sealed and signed by "
          "the harness itself with go-hpke and the ECDSA fork) are validated by TLC: a response exists iff every link holds."
-         + " Verdicts.tla (a long-lived verifier with a memo in front of its check; VerdictIsFunction holds for the intended design - TLAPS: for histories of any length - and fails for three named deviations) generates EVERY history of 3 (thorough 4) presentations over the kind's classes (rlissuer); each is replayed on one rate-limited issuer, each class one concrete value per history, and TLC validates every recorded verdict against the specification's decision.",
+         + " Verdicts.tla (a long-lived verifier with a memo in front of its check; VerdictIsFunction holds for the intended design - TLAPS: for histories of any length - and fails for three named deviations) generates EVERY history of 3 (thorough 4) presentations over the kind's classes (rlissuer, rlorigins); each is replayed on one rate-limited issuer, each class one concrete value per history, and TLC validates every recorded verdict against the specification's decision.",
     note="The request class is known to the harness by construction. Rejection of corrupted requests can fail spuriously only with negligible probability.",
     technique="TLA+ check-chain spec + TLC invariant + TLC trace validation of recorded Evaluate calls over every bit of a request and crafted requests + TLC-generated histories of presentations (Verdicts.tla) replayed on a long-lived object",
     ref="5/C07")
